@@ -50,11 +50,19 @@ fn run_case(data: Arc<Vec<u8>>, flags: u32, seed: u64, out: Arc<Mutex<std::io::S
     let hints = crate::scan::scan(&data).hints;
     let (res, ws, consumed) = if flags & F_READFILE != 0 {
         // path-based entry point: the whole file is what the reader can deliver
-        let path = format!("{}/worker-{}.ase", std::env::temp_dir().display(), std::process::id());
+        // the file name is not valid UTF-8 (any path the OS accepts is a legitimate argument)
+        let path = {
+            use std::os::unix::ffi::OsStringExt;
+            let mut p = std::env::temp_dir().into_os_string().into_vec();
+            p.extend_from_slice(b"/worker-\xff\xfe-");
+            p.extend_from_slice(std::process::id().to_string().as_bytes());
+            p.extend_from_slice(b".ase");
+            std::path::PathBuf::from(std::ffi::OsString::from_vec(p))
+        };
         let _ = std::fs::write(&path, &data[..]);
         alloc::open_window(flags & F_DENY != 0);
         alloc::add_delivered(data.len() as u64);
-        let res = guarded(|| asefile::AsepriteFile::read_file(std::path::Path::new(&path)));
+        let res = guarded(|| asefile::AsepriteFile::read_file(&path));
         let ws = alloc::close_window();
         let _ = std::fs::remove_file(&path);
         (res, ws, data.len())
